@@ -132,7 +132,18 @@ def split_trace(path, nparts, boundary='{"e":"Reset"'):
         lines = f.readlines()
     if not lines:
         return []
-    starts = [i for i, l in enumerate(lines) if boundary is None or l.startswith(boundary)]
+    if boundary is None:
+        # independent lines: deal them out round-robin so that expensive cases (which generators
+        # tend to emit together) are spread over all validators
+        n = max(1, min(nparts, len(lines)))
+        res = []
+        for p in range(n):
+            fn = "%s.part%02d" % (path, p)
+            with open(fn, "w") as f:
+                f.writelines(lines[p::n])
+            res.append((fn, ("rr", p, n)))
+        return res
+    starts = [i for i, l in enumerate(lines) if l.startswith(boundary)]
     if not starts or starts[0] != 0:
         starts = [0] + starts
     per = max(1, len(lines) // nparts)
@@ -186,7 +197,10 @@ def validate(module, cfg, cwd, trace_path, nparts=16, env=None, heap="3g", timeo
         if r.reject_mentions != len(r.rejects):
             raise Infra("could not parse every REJECT line of %s" % fn)
         for ln, why in r.rejects:
-            rejects.append((off + ln, why, fn))
+            if isinstance(off, tuple):
+                rejects.append(((ln - 1) * off[2] + off[1] + 1, why, fn))
+            else:
+                rejects.append((off + ln, why, fn))
     return dict(events=events, rejects=rejects, states=states, transitions=trans,
                 wall=time.time() - t)
 
